@@ -490,6 +490,11 @@ def _as_lists(expr, cfg, rd, at_stmt):
     inlining for a local name)."""
     if isinstance(expr, (ast.List, ast.Tuple)):
         return [expr.elts]
+    if isinstance(expr, ast.IfExp):
+        # `[a, b] if <stored> else []`: either arm
+        a_ = _as_lists(expr.body, cfg, rd, at_stmt)
+        b_ = _as_lists(expr.orelse, cfg, rd, at_stmt)
+        return a_ + b_ if a_ and b_ else []
     if isinstance(expr, ast.Name):
         node = cfg.node_of_stmt(at_stmt) if at_stmt is not None else None
         if node is None:
